@@ -194,6 +194,133 @@ example : (run [.sample 50000000, .timeout, .timeout]).rto = 800000000 := by dec
 example : (run [.sample 50000000, .timeout, .sample 50000000]).rto = 200000000 := by decide
 example : (run [.sample 0]).rto = 200000000 ∧ (run [.sample 100000000000000]).rto = 60000000000 := by decide
 
+/-! ### The RTO stays tied to the round trips actually measured (RTTVAR bound) -/
+
+/-- `clamp` is monotone. -/
+theorem clamp_mono (a b : Nat) (h : a ≤ b) : clamp a ≤ clamp b := by
+  have hc := constants_pinned
+  unfold clamp
+  repeat' split
+  all_goals omega
+
+/-- Invariant: SRTT and RTTVAR never exceed any upper bound of the samples seen. -/
+def VarInv (seen : List Nat) : Rtte → Prop
+  | .initial _ => True
+  | .subsequent _ srtt rttvar => ∀ hi, (∀ x ∈ seen, x ≤ hi) → srtt ≤ hi ∧ rttvar ≤ hi
+
+theorem varInv_step (seen : List Nat) (s : Rtte) (e : Ev) (h : VarInv seen s) :
+    VarInv (seen ++ samples [e]) (step s e) := by
+  cases e with
+  | timeout =>
+    simp only [step, samples, List.append_nil]
+    cases s <;> simp_all [Rtte.onRtoTimeout, VarInv]
+  | sample r =>
+    simp only [step, samples]
+    cases s with
+    | initial rto =>
+      simp only [Rtte.sample, VarInv]
+      intro hi hh
+      have := hh r (List.mem_append_right _ (List.mem_singleton.mpr rfl))
+      omega
+    | subsequent rto srtt rttvar =>
+      simp only [Rtte.sample, VarInv] at *
+      intro hi hh
+      have h1 := h hi (fun x hx => hh x (List.mem_append_left _ hx))
+      have h2 := hh r (List.mem_append_right _ (List.mem_singleton.mpr rfl))
+      unfold absDiff
+      split <;> omega
+
+theorem var_bounded_by_samples (evs : List Ev) : VarInv (samples evs) (run evs) := by
+  have : ∀ seen s, VarInv seen s → VarInv (seen ++ samples evs) (evs.foldl step s) := by
+    induction evs with
+    | nil => intro seen s h; simpa [samples] using h
+    | cons e t ih =>
+      intro seen s h
+      have := ih _ _ (varInv_step seen s e h)
+      rw [List.append_assoc, ← samples_append] at this
+      exact this
+  simpa [run] using this [] Rtte.init (by simp [VarInv, Rtte.init])
+
+/-- **Right after a sample the RTO is bracketed by the samples seen**: for every history of samples and timeouts
+ending in a sample, if every sample seen lies in `[lo, hi]` then
+`clamp lo ≤ RTO ≤ clamp (hi + max (4·hi) G)`: never below the smallest round trip measured (a timer shorter than
+the path's round trip would fire spuriously on every packet), never above five times the largest (plus the clamp
+to [200 ms, 60 s]), whatever back-off happened in between. -/
+theorem rto_bracketed_by_samples (evs : List Ev) (r lo hi : Nat)
+    (hlo : ∀ x ∈ samples evs ++ [r], lo ≤ x) (hhi : ∀ x ∈ samples evs ++ [r], x ≤ hi) :
+    clamp lo ≤ (run (evs ++ [.sample r])).rto ∧
+    (run (evs ++ [.sample r])).rto ≤ clamp (hi + max (hi * RTTE_K) CLOCK_GRANULARITY) := by
+  have hs := srtt_between_samples (evs ++ [.sample r])
+  have hv := var_bounded_by_samples (evs ++ [.sample r])
+  have hsm : samples (evs ++ [Ev.sample r]) = samples evs ++ [r] := by rw [samples_append]; rfl
+  rw [hsm] at hs hv
+  have hrun : run (evs ++ [.sample r]) = (run evs).sample r := by simp [run, step]
+  obtain ⟨srtt, rttvar, he⟩ : ∃ srtt rttvar, (run evs).sample r = .subsequent (calcRto srtt rttvar) srtt rttvar := by
+    cases run evs <;> exact ⟨_, _, rfl⟩
+  rw [hrun, he] at hs hv ⊢
+  simp only [SrttInv, VarInv, Rtte.rto] at *
+  have h1 := hs.2.2.1 lo hlo
+  have h2 := hv hi hhi
+  unfold calcRto
+  constructor
+  · apply clamp_mono; omega
+  · apply clamp_mono
+    have : rttvar * RTTE_K ≤ hi * RTTE_K := Nat.mul_le_mul_right _ h2.2
+    omega
+
+-- Non-vacuity: histories with back-off between the samples.
+example : (run ([.sample 50000000, .timeout] ++ [.sample 70000000])).rto = 200000000 := by decide
+example : (run ([.sample 1000000000, .timeout] ++ [.sample 3000000000])).rto = 4750000000 := by decide
+
+/-! ### Steady path -/
+
+/-- `n` further samples of the same value. -/
+def steady (r : Nat) : Nat → Rtte → Rtte
+  | 0, s => s
+  | n + 1, s => steady r n (s.sample r)
+
+/-- RTTVAR after `n` decays of 3/4 (integer floor, as the code computes it). -/
+def decay : Nat → Nat → Nat
+  | 0, v => v
+  | n + 1, v => decay n (v * 3 / 4)
+
+theorem decay_le (n v : Nat) : decay n v * 4 ^ n ≤ v * 3 ^ n := by
+  induction n generalizing v with
+  | zero => simp [decay]
+  | succ n ih =>
+    simp only [decay]
+    have h := ih (v * 3 / 4)
+    have h4 : v * 3 / 4 * 4 ≤ v * 3 := Nat.div_mul_le_self _ _
+    calc decay n (v * 3 / 4) * 4 ^ (n + 1) = decay n (v * 3 / 4) * 4 ^ n * 4 := by rw [Nat.pow_succ, Nat.mul_assoc]
+      _ ≤ (v * 3 / 4) * 3 ^ n * 4 := Nat.mul_le_mul_right _ h
+      _ = (v * 3 / 4 * 4) * 3 ^ n := by rw [Nat.mul_assoc, Nat.mul_comm (3 ^ n) 4, ← Nat.mul_assoc]
+      _ ≤ (v * 3) * 3 ^ n := Nat.mul_le_mul_right _ h4
+      _ = v * 3 ^ (n + 1) := by rw [Nat.pow_succ, Nat.mul_assoc, Nat.mul_comm 3 (3 ^ n)]
+
+/-- **On a steady path the estimator settles**: after a first sample `r`, `n` further samples of the same `r`
+(with any timeouts' back-off forgotten by `sample_forgets_backoff`) leave SRTT = `r` exactly, RTTVAR = `r/2` decayed
+`n` times by 3/4 - at most `(r/2)·(3/4)^n` - and RTO = clamp(r + max(4·RTTVAR, G)): the timer comes back down to
+the measured round trip instead of staying inflated. -/
+theorem steady_path_settles (r n rto v : Nat) :
+    steady r (n + 1) (.subsequent rto r v) =
+      .subsequent (calcRto r (decay (n + 1) v)) r (decay (n + 1) v) ∧
+    decay (n + 1) v * 4 ^ (n + 1) ≤ v * 3 ^ (n + 1) := by
+  refine ⟨?_, decay_le _ _⟩
+  induction n generalizing rto v with
+  | zero =>
+    simp only [steady, Rtte.sample, decay, absDiff]
+    have e : (r * 7 + r) / 8 = r := by omega
+    simp [e]
+  | succ n ih =>
+    have e : (r * 7 + r) / 8 = r := by omega
+    have hs : (Rtte.subsequent rto r v).sample r = .subsequent (calcRto r (v * 3 / 4)) r (v * 3 / 4) := by
+      simp [Rtte.sample, absDiff, e]
+    rw [steady, hs, ih]
+    simp only [decay]
+
+-- Non-vacuity: 100 ms path, ten equal samples: the RTO is down at the 200 ms floor.
+example : (steady 100000000 9 (Rtte.init.sample 100000000)).rto = 200000000 := by decide
+
 /-! ### Tie 1b: the hand-written model of this function equals the definition regenerated from the Rust source
 
 `UtpVerif.Gen.Fns` is rewritten by `tools/translate_fns.py` from /repo's current source on every run; the theorems
